@@ -154,7 +154,7 @@ type truthVal struct {
 func truthValues() []truthVal {
 	var out []truthVal
 	lit := func(e, cl string) { out = append(out, truthVal{expr: e, class: "literal:" + cl}) }
-	for _, e := range []string{"true", "false", "0", "1", "-1", "2", "65535", "70000", "0.0", "0.5", "-0.5", "\"\"", "\"a\"", "\"0\"", "\"false\"",
+	for _, e := range []string{"true", "false", "0", "1", "-1", "2", "255", "256", "257", "512", "1024", "4096", "32768", "65280", "65534", "65535", "65536", "70000", "131072", "4294967296", "-256", "256.0", "0.0", "0.5", "-0.5", "\"\"", "\"a\"", "\"0\"", "\"false\"",
 		"[]", "[0]", "[1, 2]", "{}", "{\"a\": 0}", "/a/", "Missing"} {
 		lit(e, "v")
 	}
@@ -291,8 +291,9 @@ func genContainers(stream string, seed uint64, n int) []GenCase {
 		add("n = 0; foreach i, ch in "+s+" { n = n + 1; rec(i, ch); } return n;", "iterate-string")
 		add("return [\"l\" in "+s+", \"\" in "+s+", \"é\" in "+s+", \"zz\" in "+s+"];", "in-string")
 	}
-	hashes := []string{"{}", "{\"a\": 1}", "{\"b\": 2, \"a\": 1, \"c\": [3]}", "{1: \"int\", \"1\": \"str\", 1.0: \"float\"}", "{1.5: \"f\", \"1.5\": \"s\"}", "{2: 0, 10: 1, \"10\": 2, \"2\": 3}", "{\"k\": {\"n\": 1}}"}
-	keys := []string{"\"a\"", "\"b\"", "\"zz\"", "1", "\"1\"", "1.0", "1.5", "\"1.5\"", "2", "10", "\"10\"", "0", "true", "[1]", "Missing", "\"k\""}
+	hashes := []string{"{0.1234567: \"a\", 0.1234568: \"b\"}", "{0.0000001: \"x\", 0.0000002: \"y\", 0.1: \"z\"}", "{100000.5: 1, 100000.25: 2, 1e3: 3}", "{9007199254740993: \"big\", 9007199254740992: \"even\"}",
+		"{\"A\": 1, \"a\": 2, \" a\": 3, \"a \": 4}", "{true: 1, \"true\": 2}", "{}", "{\"a\": 1}", "{\"b\": 2, \"a\": 1, \"c\": [3]}", "{1: \"int\", \"1\": \"str\", 1.0: \"float\"}", "{1.5: \"f\", \"1.5\": \"s\"}", "{2: 0, 10: 1, \"10\": 2, \"2\": 3}", "{\"k\": {\"n\": 1}}"}
+	keys := []string{"0.1234567", "0.1234568", "0.1234569", "0.123457", "0.0000001", "0.0000002", "0.0", "100000.5", "100000.25", "1000", "1000.0", "9007199254740993", "9007199254740992", "\"A\"", "\" a\"", "true", "\"true\"", "\"a\"", "\"b\"", "\"zz\"", "1", "\"1\"", "1.0", "1.5", "\"1.5\"", "2", "10", "\"10\"", "0", "true", "[1]", "Missing", "\"k\""}
 	for _, h := range hashes {
 		for _, k := range keys {
 			add("return "+h+"["+k+"];", "hash-index")
